@@ -361,6 +361,31 @@ def run(ctx):
                     f = 'exception-%s: %s' % (c['op'], type(ex).__name__ + ':' + str(ex)[:100])
                 if f:
                     ctx.report(c, 'failure', f)
+    # dot with a CONSTANT ndarray on either side and a polynomial whose interior orders vanish (y0 + y2 t^2; odd orders zero; order 2 zero)
+    for sub in ('Am', 'Av', 'mA', 'vA'):
+        for pat in ('order1-zero', 'order2-zero', 'odd-orders-zero'):
+            D, P, k = 4, 2, 2
+            sx = {'m': (3, k), 'v': (k,), 'A': (3, k)}[sub[0]]
+            sy = {'m': (k, 2), 'v': (k,), 'A': (k, 2)}[sub[1]]
+            c = {'op': 'dot', 'D': D, 'P': P, 'sub': sub, 'x': rand_coeffs(rng, ((D, P) if sub[0] != 'A' else ()) + sx, -2, 2),
+                 'y': rand_coeffs(rng, ((D, P) if sub[1] != 'A' else ()) + sy, -2, 2)}
+            which = 'y' if sub[0] == 'A' else 'x'
+            a = np.array(c[which])
+            if pat == 'order1-zero':
+                a[1] = 0
+            elif pat == 'order2-zero':
+                a[2] = 0
+            else:
+                a[1::2] = 0
+            c[which] = a
+            ctx.evaluations += 1
+            ctx.count('op=dot:constant-operand-sparse-%s' % pat)
+            try:
+                f = check(ctx, c)
+            except Exception as ex:
+                f = 'exception-%s: %s' % (c['op'], type(ex).__name__ + ':' + str(ex)[:100])
+            if f:
+                ctx.report(c, 'failure', f)
     # the one-operand matrix functions on polynomials with whole orders exactly zero (A0 + t^2 A2 + t^3 A3; A0 + t A1 + t^3 A3; odd orders
     # zero; affine A0 + t A1 carried to D = 4 -- what seeding at a stationary point or a Hessian-type seed produces), the pattern in
     # one direction only or in all: on every run
